@@ -3,6 +3,15 @@
 THOROUGH_SEEDS = 4
 
 
+def minimal_ranks(N, R, pats, M=None):
+    """the TT ranks of the sparse base point equal the (term) ranks of the unfoldings of its dense tensor"""
+    from ..scen.c02 import dense_pattern
+    from ..scen.c01 import unfolding_generic_rank
+    dp = dense_pattern(N, R, pats, M)
+    modes = list(N) if M is None else [m * n for m, n in zip(M, N)]
+    return all(unfolding_generic_rank(modes, dp, k) == R[k] for k in range(1, len(N)))
+
+
 def cases(tier, seed):
     import random
     from .C02 import gen_tt_pattern, all_ranks_used
@@ -21,11 +30,14 @@ def cases(tier, seed):
         sparse += [([2, 2, 2, 2], [1, 2, 2, 2, 1], None), ([3, 2, 3], [1, 3, 2, 1], None), ([2, 2, 2], [1, 2, 2, 1], [1, 2, 1])]
     for N, Rx, M in sparse:
         for rep in range(1 if not th else 3):
-            p = gen_tt_pattern(N, Rx, rng, M=M, dense_slices=True)
-            for _ in range(60):
-                if all_ranks_used(p, Rx):
+            p = None
+            for _ in range(300):
+                q_ = gen_tt_pattern(N, Rx, rng, M=M, dense_slices=True)
+                if all_ranks_used(q_, Rx) and minimal_ranks(N, Rx, q_, M):
+                    p = q_
                     break
-                p = gen_tt_pattern(N, Rx, rng, M=M, dense_slices=True)
+            if p is None:
+                continue        # no minimal-rank base point found for this structure: the property assumes minimal ranks
             structs.append((N, Rx, M, [[list(q) for q in pk] for pk in p]))
     for st in structs:
         N, Rx, M = st[0], st[1], st[2]
@@ -65,7 +77,7 @@ def cases(tier, seed):
 
 def opts(tier):
     return {'logic': 'QF_NRA', 'qtimeout_ms': 20000, 'final_timeout_ms': 60000 if tier == 'quick' else 240000, 'max_paths': 50,
-            'case_timeout_s': 200 if tier == 'quick' else 1500, 'scalar_mode': 'A', 'setup': {'factor_mode': 'exact'}}
+            'case_timeout_s': 200 if tier == 'quick' else 600, 'scalar_mode': 'A', 'setup': {'factor_mode': 'exact'}}
 
 
 def sig(case, label):
